@@ -2137,12 +2137,18 @@ class _GroupElem(ABC):
                 else:
                     # This is the most time-consuming method.
                     # We need to construct the Jacobian matrices here.
+                    # size of the element: the cost function is made dimensionless, otherwise
+                    # the (absolute) tolerances of least_squares depend on the length unit
+                    h_e = np.linalg.norm(
+                        coordElemBase[:, :dim].max(0) - coordElemBase[:, :dim].min(0)
+                    )
+
                     def Eval(xi: _types.FloatArray, xP: _types.FloatArray):
                         # x(xi) = N(xi) · X is the isoparametric map itself; the local
                         # linearisation x0 + (xi - xi0) · F(xi) is a different function
                         # on non-parallelogram elements.
                         N = _GroupElem._Eval_Functions(N_tild, xi.reshape(1, -1))
-                        J = N[0, 0] @ coordElemBase[:, :dim] - xP  # cost function
+                        J = (N[0, 0] @ coordElemBase[:, :dim] - xP) / h_e  # cost function
                         return J
 
                     xiP = []
